@@ -62,6 +62,13 @@ Definition set_local_bookmark (v : jview) (n : N) (t : target) : jview :=
 Definition set_git_ref (v : jview) (n : N) (t : target) : jview :=
   mk_jview (j_local v) (j_remote v) (set (j_grefs v) n t).
 
+(** Bookmarks and tags share every piece of this logic (View::set_local_tag_target /
+    set_remote_tag are the tag twins of the bookmark setters, classify_ref_push_action is used
+    for both, push_refs sends both kinds in one `git push`). A ref is identified by its key:
+    keys below 100 are bookmarks (refs/heads/<name> on the remote), keys from 100 on are tags
+    (refs/tags/<name>). Everything is keyed by this (kind, name) key, never by position. *)
+Definition is_tag (n : N) : bool := 100 <=? n.
+
 (** * classify_ref_push_action (lib/src/refs.rs:216-234) *)
 Inductive push_action :=
 | PUpdate (before after : N)      (* 0 = None *)
@@ -132,8 +139,11 @@ Section Push.
             (match ans with RemoteRejected => p_remote_rejected st ++ [n]
                           | _ => p_remote_rejected st end).
 
-  (** After an accepted update git itself moves refs/remotes/origin/<name> of the backing
-      repository; then push_refs (git.rs:3327-3356) records the pushed refs: it exports them
+  (** After an accepted bookmark update git itself moves refs/remotes/origin/<name> of the
+      backing repository; for an accepted tag jj sets refs/jj/remote-tags/origin/<name>
+      (to_remote_tag_ref_update, git.rs:3336-3342) - in both cases the backing ref of the key
+      becomes the pushed value. Then push_refs (git.rs:3327-3363) records the pushed refs;
+      for tags only the remote-tracking tag is set (git_refs is not involved); for bookmarks: it exports them
       (ONLY those: push_refs filters the requests by GitPushStats::pushed, git.rs:3315-3325)
       to the backing repository with the compare-and-swap of Model/C34.v
       ([build_pushed_bookmarks_to_export] + [export_refs_to_git]: deletions first) and, for
@@ -146,6 +156,7 @@ Section Push.
 
   Definition record_delete (st : rec_state) (u : N * (N * N)) : rec_state :=
     let '(n, (before, after)) := u in
+    if is_tag n then st else
     if after =? 0 then
       match delete_git_ref (c_backing st) n before with
       | (None, b') => mk_rec (set_git_ref (c_view st) n absent) b' (c_unexported st)
@@ -154,6 +165,7 @@ Section Push.
     else st.
   Definition record_update (st : rec_state) (u : N * (N * N)) : rec_state :=
     let '(n, (before, after)) := u in
+    if is_tag n then st else
     if after =? 0 then st
     else
       match update_git_ref (c_backing st) n before after with
@@ -183,7 +195,8 @@ Section Push.
               (p_remote_rejected st) (c_unexported r2).
 End Push.
 
-(** * Fetch = `git fetch --prune origin` in the backing repository (its
+(** * Fetch (bookmarks only: schedules that contain tags have no fetch steps, the remote-tag
+    records are then maintained by pushes alone) = `git fetch --no-tags --prune origin` in the backing repository (its
     refs/remotes/origin/ become the remote's refs/heads/) + git::import_refs. The import is
     the per-name form of diff_refs_to_import / import_refs_inner (git.rs:647-764, 921-1093;
     Proofs/C34.v [import_spec] shows the loops act name by name) with the tracking state:
@@ -319,11 +332,13 @@ Definition push_name_ok (ns : list N) (pre post : psnap) (pushed rejected : list
   && (if is_pushed then true
       else rref_eqb rr' rr && teqb (get (s_grefs post) n) (get (s_grefs pre) n)
            && (gget (s_backing post) n =? gget (s_backing pre) n) && (c' =? c))
-  (* pushed: jj's record (tracked remote-tracking target), git_refs and the backing ref now
-     all equal the local bookmark, which is what the remote has *)
+  (* pushed: jj's record (tracked remote-tracking target), the backing ref and - for
+     bookmarks - git_refs now all equal the local ref, which is what the remote has *)
   && (if is_pushed
       then teqb (tracked_target rr') l && teqb (resolved c') l
-           && teqb (get (s_grefs post) n) l && (gget (s_backing post) n =? c')
+           && (if is_tag n then teqb (get (s_grefs post) n) (get (s_grefs pre) n)
+               else teqb (get (s_grefs post) n) l)
+           && (gget (s_backing post) n =? c')
       else true)
   (* whenever jj's record of the remote branch changes, it is the remote's real value: a
      remote ref that did not move is never recorded as moved *)
